@@ -183,6 +183,8 @@ func propC04(c *Ctx) {
 		}
 	})
 
+	c.Rule("C04.R6", func() { routedEventsForwarded(c, "C04.R6") })
+
 	c.Rule("C04.R5", func() {
 		// the L1 verifier must hash the event's fields verbatim: any transformation between the
 		// L2 event (which the off-chain tree builder uses) and the L1 leaf strands recorded withdrawals
@@ -312,7 +314,9 @@ func propC08(c *Ctx) {
 					o2.Fail(c.evPos(&p.Events[i]), "mints "+p.Events[i].Call.Args[3].Key()+" instead of the coins it was given", c.Dump(p, i))
 				}
 			}
-			for _, i := range p.Find(func(ev *Event) bool { return ev.Kind == EvCall && isCall(ev, "BankKeeper).SendCoinsFromModuleToAccount") }) {
+			for _, i := range p.Find(func(ev *Event) bool {
+				return ev.Kind == EvCall && isCall(ev, "BankKeeper).SendCoinsFromModuleToAccount")
+			}) {
 				if p.Events[i].Call.Args[4].Key() != "coins" || p.Events[i].Call.Args[3].Key() != "toAddr" {
 					o2.Fail(c.evPos(&p.Events[i]), "forwards "+p.Events[i].Call.Args[4].Key()+" to "+p.Events[i].Call.Args[3].Key(), c.Dump(p, i))
 				}
@@ -458,6 +462,7 @@ func propC08(c *Ctx) {
 	})
 
 	c.Rule("C08.R4", func() { hookEffectsContained(c, "C08.R4") })
+	c.Rule("C08.R5", func() { layoutRule(c, "C08.R5", []string{"L2Denom", "BridgeAddress"}) })
 
 	c.Rule("C08.R3", func() {
 		dep := hostHandler(c, "InitiateTokenDeposit")
